@@ -176,20 +176,37 @@ func PlantAround(t *Target, size int64, k string, L int, rng *rand.Rand) {
 		if n < 0 || n > 900_000_000 {
 			continue
 		}
-		r := rng.Intn(10)
-		if r >= 2 { // mostly with the full tile
-			Plant(t.Dir, t.Mode, TileID{k, L, n, TW}, rng)
-		}
-		if r == 0 { // zero-length full tile
-			p := filepath.Join(t.Dir, relOf(TileID{k, L, n, TW}, t.Mode))
-			if !exists(p) {
-				writeFile(p, nil, 0o444, true)
-			}
+		if rng.Intn(5) > 0 { // mostly with the full tile
+			plantFree(t, size, TileID{k, L, n, TW}, rng)
 		}
 		for _, w := range []int{1, 255, 1 + rng.Intn(255), 1 + rng.Intn(255)}[:1+rng.Intn(4)] {
-			Plant(t.Dir, t.Mode, TileID{k, L, n, w}, rng)
+			plantFree(t, size, TileID{k, L, n, w}, rng)
 		}
 	}
+}
+
+// inTree: the tile is one of the tree of the given size (scheduling only).
+func inTree(x TileID, size int64) bool {
+	sh := 8 * uint(x.L)
+	if sh >= 63 {
+		return false
+	}
+	m := size >> sh
+	if x.W == TW {
+		return (x.N+1)*TW <= m
+	}
+	return x.N == m/TW && int64(x.W) == m%TW
+}
+
+// plantFree plants unless the restart check's round (three entries) is going
+// to write that very path.
+func plantFree(t *Target, size int64, x TileID, rng *rand.Rand) {
+	for d := int64(1); d <= 3; d++ {
+		if inTree(x, size+d) {
+			return
+		}
+	}
+	Plant(t.Dir, t.Mode, x, rng)
 }
 
 // Decoy makes a tree outside the configured directories that looks like a log
